@@ -11,62 +11,86 @@ EXTENDS MCMPT, Json
 CONSTANT Depth
 VARIABLES flushed,   \* content as of the last Flush
           dirty,     \* mutated since the last Flush
+          rng,       \* state of a Lehmer generator: TLC's RandomElement restarts identically at every step of a
+                     \* simulation, so the parameter choices are derived from this variable instead; TLC picks its
+                     \* initial value, the action and the successor of every step from -seed
           hist
 
-simvars == <<vars, flushed, dirty, hist>>
+simvars == <<vars, flushed, dirty, rng, hist>>
 
 Canon(c) == Build(Pairs(c))
 \* change set as a JSON-able sequence of [k, v]
 ChgSeq(chg) == SetToSeq({[k |-> k, v |-> chg[k]] : k \in DOMAIN chg})
 
-\* a random change set, a function of ONE random number r (operator arguments and LET definitions are re-evaluated
-\* by TLC at every use, so RandomElement must be bound by a quantifier before it is used twice):
-\* digit j of r in base Len(Opts) says whether the j-th key is skipped / deleted / put with some value
-Skip == "<skip>"
-Opts == <<Skip, Skip, Nil>> \o SetToSeq(ValSet)
-KeySeq == SetToSeq(KeySet)
-RECURSIVE Pow(_, _)
-Pow(b, e) == IF e = 0 THEN 1 ELSE b * Pow(b, e - 1)
-ChgOf(r) == LET f == [j \in 1..Len(KeySeq) |-> Opts[((r \div Pow(Len(Opts), j - 1)) % Len(Opts)) + 1]]
-                D == {KeySeq[j] : j \in {j \in 1..Len(KeySeq) : f[j] # Skip}}
-            IN  [k \in D |-> f[CHOOSE j \in 1..Len(KeySeq) : KeySeq[j] = k]]
-RandomNumbers(n) == {RandomElement(0..(Pow(Len(Opts), Len(KeySeq)) - 1)) : i \in 1..n}
+Lehmer(x) == (x * 75) % 65537
+RECURSIVE Tab(_, _)
+Tab(x, n) == IF n = 0 THEN <<>> ELSE <<x>> \o Tab(Lehmer(x), n - 1)     \* the next n draws
+NDraws == 110
+Pick(seq, x) == seq[(x % Len(seq)) + 1]
 
-PrefixChoices == {<<>>, <<0,0>>, <<0,0,0,0>>, <<0,1>>, <<1,1>>, <<0,0,0,0,0,0>>}
-FromChoices    == {<<>>, <<0,0>>, <<0,1>>, <<0,0,0,1>>, <<1,0>>, <<0,0,0,0>>}
+Skip == "<skip>"
+Opts == <<Skip, Skip, Skip, Nil, Nil>> \o SetToSeq(ValSet)
+ValSeq == SetToSeq(ValSet)
+KeySeq == SetToSeq(KeySet)
+KeyIdx(k) == CHOOSE j \in 1..Len(KeySeq) : KeySeq[j] = k
+\* the i-th random change set of this step: every key is skipped / deleted / put with some value
+\* (operator arguments and LET definitions are re-evaluated by TLC at every use: values that are used more than
+\* once are bound by a quantifier over a singleton set)
+ChgFrom(f) == LET D == {KeySeq[j] : j \in {j \in 1..Len(KeySeq) : f[j] # Skip}}
+              IN  [k \in D |-> f[KeyIdx(k)]]
+
+PrefixChoices == << <<>>, <<0,0>>, <<0,0,0,0>>, <<0,1>>, <<1,1>>, <<0,0,0,0,0,0>>, <<0,0,0,1>>, <<1,0>> >>
+FromChoices   == << <<>>, <<0,0>>, <<0,1>>, <<0,0,0,1>>, <<1,0>>, <<0,0,0,0>>, <<0,0,1,0>>, <<1,1>> >>
 
 SimInit == /\ Init /\ flushed = content /\ dirty = FALSE
-           /\ hist = << [op |-> "init", keys |-> SetToSeq(KeySet)] >>
+           /\ rng \in 1..4096
+           /\ hist = << [op |-> "init", keys |-> KeySeq] >>
 
 Mutate(rec) == /\ dirty' = TRUE /\ UNCHANGED flushed
                /\ hist' = Append(hist, rec @@ [canon |-> Canon(content')])
 Same(rec) == /\ UNCHANGED <<vars, flushed, dirty>>
              /\ hist' = Append(hist, rec)
-
 \* Find and TrieStore.Seek read through a Trie rooted at a hash over the store (as stateroot.Module does), which
 \* needs a flushed trie: the harness flushes first when the trie is dirty
 Clean(rec) == /\ UNCHANGED vars /\ flushed' = content /\ dirty' = FALSE
               /\ hist' = Append(hist, rec)
 
-GenNext ==
-    \/ \E k \in KeySet : \E v \in {RandomElement(ValSet)} : Put(k, v) /\ Mutate([op |-> "put", k |-> k, v |-> v])
-    \/ \E k \in KeySet : Delete(k) /\ Mutate([op |-> "del", k |-> k])
-    \/ \E r \in RandomNumbers(6) : LET chg == ChgOf(r) IN
-          /\ DOMAIN chg # {}
-          /\ Batch(chg) /\ Mutate([op |-> "batch", b |-> ChgSeq(chg)])
-    \/ \E w \in 1..4 : /\ UNCHANGED vars /\ flushed' = content /\ dirty' = FALSE
-                       /\ hist' = Append(hist, [op |-> "flush", w |-> w])
-    \/ Same([op |-> "persist"])
-    \/ \E n \in 0..3 : ~dirty /\ Same([op |-> "collapse", n |-> n])
-    \/ \E w \in 1..2 : /\ content' = flushed /\ tree' = Build(Pairs(flushed)) /\ last' = [op |-> "reload"]
-                       /\ dirty' = FALSE /\ UNCHANGED flushed
-                       /\ hist' = Append(hist, [op |-> "reload", w |-> w, canon |-> Canon(flushed)])
-    \/ \E w \in 1..2 : Same([op |-> "dump", w |-> w])
-    \/ \E i \in 1..2 : Same([op |-> "tamper", k |-> RandomElement(KeySet), other |-> RandomElement(KeySet)])
-    \/ \E i \in 1..3 : Clean([op |-> "find", prefix |-> RandomElement(PrefixChoices), from |-> RandomElement(FromChoices),
-                             hasfrom |-> RandomElement({TRUE, FALSE}), max |-> RandomElement({1, 2, 100})])
-    \/ \E i \in 1..4 : Clean([op |-> "seek", prefix |-> RandomElement(PrefixChoices), start |-> RandomElement(FromChoices),
-                             back |-> RandomElement({TRUE, FALSE})])
+\* Every disjunct of GenNext is an action of its own: in simulation mode TLC first picks an action uniformly, then
+\* one of its successors (repeated disjuncts = weights).  The last step of a behaviour is fixed (a full
+\* observation), so that exactly one history is printed per behaviour.
+Going == Len(hist) < Depth - 1
+Draws == Tab(Lehmer(rng), NDraws)
+Tick(d) == rng' = Lehmer(d[NDraws])
+
+APut == Going /\ \E d \in {Draws} : Tick(d) /\ \E k \in KeySet : LET v == Pick(ValSeq, d[KeyIdx(k)]) IN
+            Put(k, v) /\ Mutate([op |-> "put", k |-> k, v |-> v])
+ADel == Going /\ \E d \in {Draws} : Tick(d) /\ \E k \in KeySet : Delete(k) /\ Mutate([op |-> "del", k |-> k])
+ABatch == Going /\ \E d \in {Draws} : Tick(d) /\
+            \E i \in 1..6 : \E f \in {[j \in 1..Len(KeySeq) |-> Pick(Opts, d[8 * i + j])]} : \E chg \in {ChgFrom(f)} :
+              /\ DOMAIN chg # {}
+              /\ Batch(chg) /\ Mutate([op |-> "batch", b |-> ChgSeq(chg)])
+AFlush == Going /\ \E d \in {Draws} : Tick(d) /\ UNCHANGED vars /\ flushed' = content /\ dirty' = FALSE
+                                       /\ hist' = Append(hist, [op |-> "flush"])
+APersist == Going /\ \E d \in {Draws} : Tick(d) /\ Same([op |-> "persist"])
+ACollapse == Going /\ ~dirty /\ \E d \in {Draws} : Tick(d) /\ \E n \in 0..3 : Same([op |-> "collapse", n |-> n])
+AReload == Going /\ \E d \in {Draws} : Tick(d)
+                 /\ content' = flushed /\ tree' = Build(Pairs(flushed)) /\ last' = [op |-> "reload"]
+                 /\ dirty' = FALSE /\ UNCHANGED flushed
+                 /\ hist' = Append(hist, [op |-> "reload", canon |-> Canon(flushed)])
+ADump == Going /\ \E d \in {Draws} : Tick(d) /\ Same([op |-> "dump"])
+ATamper == Going /\ \E d \in {Draws} : Tick(d) /\
+            \E i \in 1..2 : Same([op |-> "tamper", k |-> Pick(KeySeq, d[60 + i]), other |-> Pick(KeySeq, d[64 + i])])
+AFind == Going /\ \E d \in {Draws} : Tick(d) /\
+            \E i \in 1..3 : Clean([op |-> "find", prefix |-> Pick(PrefixChoices, d[70 + i]),
+                                  from |-> Pick(FromChoices, d[74 + i]), hasfrom |-> d[78 + i] % 3 # 0,
+                                  max |-> Pick(<<1, 2, 100, 100>>, d[82 + i])])
+ASeek == Going /\ \E d \in {Draws} : Tick(d) /\
+            \E i \in 1..4 : Clean([op |-> "seek", prefix |-> Pick(PrefixChoices, d[90 + i]),
+                                  start |-> Pick(FromChoices, d[95 + i]), back |-> d[100 + i] % 2 = 0])
+AFinal == Len(hist) = Depth - 1 /\ UNCHANGED rng /\ Same([op |-> "dump"])
+
+GenNext == \/ APut \/ APut \/ ADel \/ ABatch \/ ABatch \/ ABatch \/ AFlush \/ AFlush \/ APersist \/ ACollapse \/ AReload
+           \/ ADump \/ ATamper \/ AFind \/ ASeek \/ ASeek \/ AFinal
 
 SimSpec == SimInit /\ [][GenNext]_simvars
 
